@@ -30,7 +30,10 @@ Next ==
   /\ S.panicked = ""
   /\ ~Ends(S)
   /\ \E t \in Live(S) :
-       \/ CanComplete(S, t) /\ S' = Record(Complete(S, t), S, t) /\ hist' = Append(hist, <<S.ix[t+1], S.pc[t+1], "C">>)
+       \/ /\ CanComplete(S, t)
+          /\ \E v \in (IF NextOp(S, t).k = "rand" THEN 0..3 ELSE {S.rv}) :
+                LET s0 == [S EXCEPT !.rv = v] IN S' = Record(Complete(s0, t), s0, t)
+          /\ hist' = Append(hist, <<S.ix[t+1], S.pc[t+1], "C">>)
        \/ CanBlock(S, t) /\ S' = Block(S, t) /\ hist' = Append(hist, <<S.ix[t+1], S.pc[t+1], "B">>)
        \/ PanicKind(S, t) # "" /\ S' = [S EXCEPT !.panicked = PanicKind(S, t)] /\ hist' = Append(hist, <<S.ix[t+1], S.pc[t+1], "P">>)
 
